@@ -59,6 +59,11 @@ type c02Case struct {
 	LeafList bool        `json:"leaf_list,omitempty"`
 	Grouping bool        `json:"grouping,omitempty"`
 	Uses     int         `json:"uses"`
+	// RefineUse > 0: that use of the grouping (1 = the first) refines the leaf with the default RefineDefault; the other
+	// uses keep what the leaf and its typedefs say
+	RefineUse     int    `json:"refine_use,omitempty"`
+	RefineDefault string `json:"refine_default,omitempty"`
+	refinedHere   bool
 	Decoy    bool        `json:"decoy,omitempty"` // a sibling container defines unrelated typedefs with the same names first
 	Lo       int         `json:"lo"` // bounds of the base type as far as the generator uses them
 	Hi       int         `json:"hi"`
@@ -313,6 +318,11 @@ func c02Defaults(t *rapid.T, c *c02Case, value func(i int) string) {
 			c.Lvls[i].Default = value(i)
 		}
 	}
+	if c.Grouping && !c.LeafList && rapid.IntRange(0, 2).Draw(t, "refine-default?") == 0 {
+		if d := value(len(c.Lvls) + 1); d != "" {
+			c.RefineUse, c.RefineDefault = rapid.IntRange(1, c.Uses).Draw(t, "refined-use"), d
+		}
+	}
 }
 
 // c02Number assigns RFC 7950 9.6.4.2 / 9.7.4.2 values: explicit, else one more than the highest so far (0 first).
@@ -522,7 +532,9 @@ func (c c02Case) files() map[string]string {
 			name = fmt.Sprintf("inner%d", u+1)
 		}
 		fmt.Fprintf(&m, "  container %s {\n", name)
-		if c.Grouping {
+		if c.Grouping && c.RefineUse == u+1 {
+			fmt.Fprintf(&m, "   uses g {\n    refine x {\n     default %q;\n    }\n   }\n", c.RefineDefault)
+		} else if c.Grouping {
 			m.WriteString("   uses g;\n")
 		} else {
 			m.WriteString(c.typedefs("inner", "   "))
@@ -657,6 +669,9 @@ func (c c02Case) finalNames() ([]string, map[string]int) {
 }
 
 func (c c02Case) expectDefault() (string, bool) {
+	if c.refinedHere {
+		return c.RefineDefault, true
+	}
 	for i := len(c.Lvls) - 1; i >= 0; i-- {
 		if c.Lvls[i].Default != "" {
 			return c.Lvls[i].Default, true
@@ -753,7 +768,12 @@ func c02Run(c c02Case, o *hx.Obs) {
 		fail := func(clause, f string, a ...interface{}) {
 			o.Failf("type|"+kind+"|"+clause+"|"+which, "outer/%s/x: %s\n%s", name, fmt.Sprintf(f, a...), show())
 		}
-		o.Guard("effective type of "+name+"/x", func() { c02CheckLeaf(c, leaf, fail) })
+		cu := c
+		cu.refinedHere = c.RefineUse == u+1
+		if cu.refinedHere {
+			o.Class("a use refines the default")
+		}
+		o.Guard("effective type of "+name+"/x", func() { c02CheckLeaf(cu, leaf, fail) })
 	}
 }
 
@@ -957,7 +977,7 @@ func c02CheckLeaf(c c02Case, leaf meta.Leafable, fail func(clause, f string, a .
 
 var c02Types = hx.Register(&hx.Check[c02Case]{
 	Name: "c02-derivation",
-	Rule: "a leaf or leaf-list whose type is a chain of 0-4 typedefs over every built-in base (8 integer types, decimal64, string, binary, boolean, empty, enumeration, bits, union, leafref, identityref), the typedefs placed in an imported module, a submodule, the module, an enclosing container, the leaf's own container or its grouping; each level may narrow range / length, add a pattern, keep a subset of enums / bits, and state default and units; the leaf sits inline or in a grouping used 1-3 times; half of the modules first define unrelated typedefs of the same names in a sibling scope; checked per expansion: format, acceptance of boundary probes by Range()/Length(), accumulated patterns, enum values and bit positions by the RFC numbering rule, union members, leafref path and target type, the identities accepted, fraction-digits, and default / units from the leaf else the nearest typedef; non-trivial = two or more typedef levels, a second use, or a typedef in another file",
+	Rule: "a leaf or leaf-list whose type is a chain of 0-4 typedefs over every built-in base (8 integer types, decimal64, string, binary, boolean, empty, enumeration, bits, union, leafref, identityref), the typedefs placed in an imported module, a submodule, the module, an enclosing container, the leaf's own container or its grouping; each level may narrow range / length, add a pattern, keep a subset of enums / bits, and state default and units; the leaf sits inline or in a grouping used 1-3 times, one of the uses may refine the leaf's default; half of the modules first define unrelated typedefs of the same names in a sibling scope; checked per expansion: format, acceptance of boundary probes by Range()/Length(), accumulated patterns, enum values and bit positions by the RFC numbering rule, union members, leafref path and target type, the identities accepted, fraction-digits, and default / units from the leaf else the nearest typedef; non-trivial = two or more typedef levels, a second use, or a typedef in another file",
 	Gen:  c02Gen,
 	Run:  c02Run,
 })
